@@ -1,6 +1,10 @@
 package flags
 
-func levenshtein(s string, t string) int {
+func levenshtein(a string, b string) int {
+	// Compare characters, not bytes
+	s := []rune(a)
+	t := []rune(b)
+
 	if len(s) == 0 {
 		return len(t)
 	}
@@ -15,7 +19,7 @@ func levenshtein(s string, t string) int {
 		dists[i][0] = i
 	}
 
-	for j := range t {
+	for j := 0; j <= len(t); j++ {
 		dists[0][j] = j
 	}
 
